@@ -661,7 +661,7 @@ def h_posfree(cname, n, op, lsb0):
 def conditions(tier):
     q = tier == 'quick'
     conds = []
-    T = 180 if q else 1200
+    T = 180 if q else 450
     # BitStream overrides only these mutators; in the quick tier the inherited ones are run on BitArray only
     STREAM_OVERRIDES = {'append', 'prepend', 'iadd', 'insert', 'overwrite', 'setitem-int', 'setitem-bits', 'delitem-int', 'delslice',
                         'setslice-int', 'setslice-bits', 'replace', 'clear'}
